@@ -334,6 +334,10 @@ def _check_blocks(idx, rep, rule, f, names):
     params = set(f.params())
     pm = parent_map(f.node)
     for owner, blk in _block_lists(f.node):
+        # a block that ends with its own `return a, b, c` answers for THAT tuple: it is judged when those names are the names under examination
+        own = blk[-1].value.elts if isinstance(blk[-1], ast.Return) and isinstance(blk[-1].value, ast.Tuple) else None
+        if own is not None and all(isinstance(e, ast.Name) for e in own[:len(names)]) and [e.id for e in own[:len(names)]] != list(names):
+            continue
         assigned = {}
         for st in blk:
             if isinstance(st, ast.Assign):
@@ -368,8 +372,14 @@ def _check_blocks(idx, rep, rule, f, names):
                         if isinstance(b, list) and node in b:
                             anc_blocks.append((b, b.index(node)))
                     node = par
-                for b, i in anc_blocks[1:]:
-                    for st in b[i + 1:]:
+                later_sts = [x for b, i in anc_blocks[1:] for st in b[i + 1:] for x in ast.walk(st)]
+                if anc_blocks:
+                    b0, i0 = anc_blocks[0]
+                    # compound statements that follow in the SAME block (a loop that refines the first guess)
+                    last_assigned = max(blk.index(st) for st in assigned.values())
+                    later_sts += [x for st in blk[last_assigned + 1:] if isinstance(st, (ast.For, ast.While, ast.If, ast.With)) for x in ast.walk(st)]
+                for _one in (1,):
+                    for st in later_sts:
                         if isinstance(st, ast.Assign):
                             tg = [e.id for t in st.targets for e in (t.elts if isinstance(t, ast.Tuple) else [t]) if isinstance(e, ast.Name)]
                             used = {x.id for x in ast.walk(st.value) if isinstance(x, ast.Name)}
@@ -385,6 +395,15 @@ def _check_blocks(idx, rep, rule, f, names):
         sts = {id(st): st for st in assigned.values()}
         if len(sts) == 1:
             rep.ok(rule, key, where, "one statement binds all")
+            continue
+        # the distance recomputed as the norm of the difference of the two points that are returned is consistent with them by construction,
+        # however the points were obtained (alternating projections bind them from two calls)
+        dst = assigned.get(names[0])
+        if dst is not None and len(names) == 3 and isinstance(dst.value, ast.Call) and call_name(dst.value) in ("np.linalg.norm", "norm") and dst.value.args \
+                and isinstance(dst.value.args[0], ast.BinOp) and isinstance(dst.value.args[0].op, ast.Sub) \
+                and {u(dst.value.args[0].left), u(dst.value.args[0].right)} == {names[1], names[2]} \
+                and all(assigned[n_].lineno < dst.lineno for n_ in names[1:] if n_ in assigned):
+            rep.ok(rule, key, where, "distance recomputed from the two returned points")
             continue
         calls_ = [st for st in sts.values() if isinstance(st.value, ast.Call) and _is_subquery(idx, f, st)]
         ok, why = True, ""
